@@ -1858,6 +1858,70 @@ class Builder:
                     out.extend(stmts[:i + 1])
         return out
 
+    def _zip_neighbours(self, st):
+        """for [i,] (a, b) in [enumerate(]zip(X[:-1], X[1:])[)]  ->
+        for i in range(len(X) - 1): a = X[i]; b = X[i + 1]"""
+        if not isinstance(st, ast.For) or st.orelse:
+            return st
+        it, tgt = st.iter, st.target
+        idx = None
+        if isinstance(it, ast.Call) and isinstance(it.func, ast.Name) and \
+                it.func.id == 'enumerate' and len(it.args) == 1 and \
+                not it.keywords and isinstance(tgt, (ast.Tuple, ast.List)) \
+                and len(tgt.elts) == 2 and isinstance(tgt.elts[0], ast.Name):
+            idx, tgt, it = tgt.elts[0].id, tgt.elts[1], it.args[0]
+        if not (isinstance(it, ast.Call) and isinstance(it.func, ast.Name)
+                and it.func.id == 'zip' and len(it.args) == 2
+                and not it.keywords and isinstance(tgt, (ast.Tuple,
+                                                         ast.List))
+                and len(tgt.elts) == 2):
+            return st
+        a0, a1 = it.args
+
+        def sl(e, lo, hi):
+            return isinstance(e, ast.Subscript) and isinstance(
+                e.slice, ast.Slice) and e.slice.step is None and (
+                    (lo is None and e.slice.lower is None) or (
+                        lo is not None and isinstance(
+                            e.slice.lower, ast.Constant)
+                        and e.slice.lower.value == lo)) and (
+                    (hi is None and e.slice.upper is None) or (
+                        hi is not None and isinstance(
+                            e.slice.upper, ast.UnaryOp) and isinstance(
+                                e.slice.upper.op, ast.USub) and isinstance(
+                                    e.slice.upper.operand, ast.Constant)
+                        and e.slice.upper.operand.value == -hi))
+        if not (sl(a0, None, -1) and sl(a1, 1, None) and ast.dump(
+                a0.value) == ast.dump(a1.value) and isinstance(
+                    a0.value, (ast.Name, ast.Attribute))):
+            return st
+        X = a0.value
+        stores = set()
+        for s_ in st.body:
+            stores |= _stores(s_)
+        if idx is None:
+            idx = '_zi%d' % (self.nsym + 1)
+            self.nsym += 1
+        if idx in stores or (_stores(tgt) & stores):
+            return st
+        i_ = ast.Name(id=idx, ctx=ast.Load())
+        new = ast.For(
+            target=ast.Name(id=idx, ctx=ast.Store()),
+            iter=ast.Call(func=ast.Name(id='range', ctx=ast.Load()), args=[
+                ast.BinOp(left=ast.Call(
+                    func=ast.Name(id='len', ctx=ast.Load()),
+                    args=[copy.deepcopy(X)], keywords=[]), op=ast.Sub(),
+                    right=ast.Constant(value=1))], keywords=[]),
+            body=[ast.Assign(targets=[tgt.elts[0]], value=ast.Subscript(
+                value=copy.deepcopy(X), slice=i_, ctx=ast.Load())),
+                ast.Assign(targets=[tgt.elts[1]], value=ast.Subscript(
+                    value=copy.deepcopy(X), slice=ast.BinOp(
+                        left=copy.deepcopy(i_), op=ast.Add(),
+                        right=ast.Constant(value=1)), ctx=ast.Load()))] +
+            list(st.body), orelse=[])
+        new._orig = getattr(st, '_orig', st)
+        return new
+
     def loop(self, st, env, ver, k2):
         un = self.unrolled(st, env, ver)
         if un is not None:
@@ -1866,6 +1930,7 @@ class Builder:
             return self.block(un, env, ver, k2)
         if st.orelse:
             raise Unsupported('loop-else')
+        st = self._zip_neighbours(st)
         if isinstance(st, ast.For) and isinstance(st.iter, ast.Call) and \
                 isinstance(st.iter.func, ast.Name) and \
                 st.iter.func.id == 'enumerate' and len(
